@@ -15,7 +15,7 @@ RUNS_PER_JOB = {"quick": 5, "thorough": 25}
 
 def dp_results(tier):
     seed = core.seed()
-    key = core.source_hash([os.path.join(core.SPEC, f) for f in ("DpRules.tla", "TraceDp.tla", "Codec.tla")] + [os.path.abspath(__file__)])
+    key = core.source_hash([os.path.join(core.SPEC, f) for f in ("DpRules.tla", "TraceDp.tla", "Codec.tla", "Dp.tla", "TraceDpM.tla")] + [os.path.abspath(__file__)])
     d = core.workdir("dp", tier)
     cache = os.path.join(d, "results_%s_%d.json" % (key, seed))
     if os.path.exists(cache):
@@ -29,10 +29,19 @@ def dp_results(tier):
         while k < n:
             m = min(per, n - k)
             out = os.path.join(d, "%s_%03d.ndjson" % (mode, k))
-            jobs.append((["dp", "--mode", mode, "--tier", tier, "--seed", seed * 104729 + k, "--runs", m], out, mode))
+            jobs.append((["dp", "--mode", mode, "--tier", tier, "--seed", seed * 104729 + k, "--runs", m, "--mout", out + ".m"], out, mode))
             k += m
     infos = core.run_drivers([(a, o) for a, o, _ in jobs])
     results = core.tlc_traces("TraceDp", "TraceDp.cfg", [o for _, o, _ in jobs])
+    # conformance of the real DpMaster with the layer-M operators (Dp.tla): every recorded call-back
+    mres = core.tlc_traces("TraceDpM", "TraceDpM.cfg", [o + ".m" for _, o, _ in jobs])
+    for res, mr in zip(results, mres):
+        ncalls = sum(mr.get("cov", {}).values())
+        res["conf"] = {"n": ncalls, "ok": ncalls - len({b["l"] for b in mr.get("bad", [])})}
+        res["mcov"] = mr.get("cov", {})
+        res["mdrift"] = [dict(b, trace=mr["file"]) for b in mr.get("bad", [])[:5]]
+        res["generated"] = res.get("generated", 0) + mr.get("generated", 0)
+        res["distinct"] = res.get("distinct", 0) + mr.get("distinct", 0)
     files = []
     for (args, out, mode), res, info in zip(jobs, results, infos):
         res["mode"] = mode
@@ -60,6 +69,11 @@ def feed(rep, files):
                     "context": [ctx[k] for k in sorted(ctx)], "tracespec": "TraceDp"}
         rep.add_trace_result(res, info)
         rep.traces += res.get("runs", 0)
+        if res.get("mdrift"):
+            rep.extra.setdefault("model_drift", []).extend(res["mdrift"][:3])
+        mc = rep.extra.setdefault("model_call_coverage", {})
+        for k, v in res.get("mcov", {}).items():
+            mc[k] = mc.get(k, 0) + v
 
 
 def run(prop, tier):
